@@ -266,6 +266,91 @@ def run(loader, R, tier):
                 % (enum, [f["n"] for f in ff], ", ".join(cats)))
     R.floor("classes with floating members", R.instances.get("R19.4", 0), 2)
 
+    # ---------------------------------------------------------- R19.8
+    # floating values are restored from their archived parts as they are:
+    # a loader that recombines parts arithmetically (re + I*im) must have
+    # excluded floating parts on that path (inf and signed zeros do not
+    # survive the arithmetic)
+    R.rule("R19.8", "no loader recombines floating parts arithmetically")
+    from selib import sym as _sym8
+    ARITH = ("addnum", "mulnum", "subnum", "divnum", "add", "mul", "sub",
+             "div")
+    n8 = 0
+    for f in prog.functions.values():
+        if f["n"] != "load_basic" or not f.get("body") \
+                or f.get("tk") != "inst" or len(f.get("params", ())) < 2:
+            continue
+        K = strip_type(f["params"][1]["t"]).replace(
+            "SymEngine::RCP<const SymEngine::", "").rstrip(">").strip()
+        if K not in ("ComplexDouble", "RealDouble"):
+            continue
+
+        def cb8(n, guards, line, f=f, K=K):
+            nonlocal n8
+            if not (n.get("k") == "call" and n.get("n") in ARITH):
+                return
+            n8 += 1
+            ok = False
+            for g in _sym8.flatten_guards(guards):
+                if g[0] == "case":
+                    continue
+                c, pol = g
+                t = show(c)
+                if "RealDouble" in t and "is_a" in t and not pol:
+                    ok = True
+            R.instance("R19.8", "%s:%s@%s" % (K, n["n"], n.get("l")))
+            if not ok:
+                R.violation(
+                    "R19.8", K, prog.loc(f, n.get("l")),
+                    "load_basic<%s> rebuilds the value with `%s`: in "
+                    "floating point re + I*im is not the identity "
+                    "((1, inf) becomes (nan, inf), (-0.0, 2) becomes "
+                    "(0.0, 2)), so a dumped %s does not come back "
+                    "bit for bit" % (K, show(n)[:50], K))
+        _sym8.visit_guarded(f["body"], cb8)
+    R.floor("arithmetic reconstructions in floating loaders", n8, 1)
+
+    # ---------------------------------------------------------- R19.7
+    # a loader may reject only what no saver can have written: an
+    # emptiness test that throws is legitimate for the node classes that
+    # cannot be empty (the frozen, replayed table of C20 R20.12) or whose
+    # is_canonical rejects an empty container; a zero-argument
+    # FunctionSymbol c() is a valid expression and must load
+    R.rule("R19.7", "loaders reject an empty container only for classes "
+                    "that cannot be empty")
+    from rules.c20 import NONEMPTY_CLASSES
+    nrej = 0
+    for f in prog.functions.values():
+        if f["n"] != "load_basic" or not f.get("body") \
+                or f.get("tk") != "inst" or len(f.get("params", ())) < 2:
+            continue
+        K = strip_type(f["params"][1]["t"]).replace(
+            "SymEngine::RCP<const SymEngine::", "").rstrip(">").strip()
+        rej = [n for n in walk(f["body"]) if n.get("k") == "if"
+               and any(y.get("k") == "mcall" and y.get("n") in ("empty",)
+                       for y in walk(n.get("c") or {}))
+               and any(y.get("k") == "throw" for y in walk(n.get("t") or {}))]
+        if not rej:
+            continue
+        nrej += 1
+        ok = K in NONEMPTY_CLASSES
+        if not ok:
+            for g in prog.fn_by_qn("SymEngine::%s::is_canonical" % K):
+                if any(y.get("k") == "mcall" and y.get("n") in ("size",
+                                                                "empty")
+                       for y in walk(g.get("body") or {})):
+                    ok = True
+        R.instance("R19.7", K, sample={"class": K, "may_reject_empty": ok})
+        if not ok:
+            R.violation(
+                "R19.7", K, prog.loc(f, rej[0].get("l")),
+                "load_basic rejects a %s with an empty container, but "
+                "nothing says a %s cannot be empty (no is_canonical size "
+                "test, not in the table of classes that cannot be empty): "
+                "an expression the library builds and dumps (a function "
+                "symbol without arguments) no longer loads" % (K, K))
+    R.floor("loaders that reject empty containers", nrej, 7)
+
     # ---------------------------------------------------------- R19.6
     # integers are archived as decimal strings of arbitrary length: the
     # loader must not route them through a machine-word conversion that
